@@ -1,3 +1,135 @@
+import Cello.Iter
 import Driver.Common
-/- driver for engine `iter` — stub, replaced when the engine is built -/
-def main (_args : List String) : IO Unit := IO.println "O not-implemented"
+/- driver for engine `iter` (C11).
+
+   op file:  `W <expr>`   build the iterable, walk it forwards (iter_init / iter_next) and backwards (iter_last / iter_prev),
+                           ask len and get(0 … len-1);   prints
+                 O f=[items] fe=<term|ub|hang|fuel> b=[items] be=<…> len=<n|-> get=[values|!]     or   O construct=<Exception>
+             `S <n> <a> <b> <c>`  Slice_Arg / slice_stack only: prints  O range=<start>,<stop>,<step> len=<Range_Len>
+   expr ::= (array v*) | (list v*) | (tuple id*) | (table s*) with s = `.` | key | (tree S) with S = `.` | (S k S) | (rtree k*)
+          | (range a*) | (slice E a*) | (reverse E) | (zip E*) | (enum E) | (filter E m r) | (map E a b)       a = int | `_` -/
+open Cello.Iter
+
+namespace IterDrv
+
+def walkCap : Nat := 1000
+
+def tokenize (s : String) : List String :=
+  let s := s.replace "(" " ( " |>.replace ")" " ) "
+  Driver.words s
+
+def parseInt? (s : String) : Option Int := s.toInt?
+
+def parseArg? (s : String) : Option (Option Int) :=
+  if s = "_" then some none else (s.toInt?).map some
+
+/-- all tokens up to the matching `)` must satisfy `f` -/
+def takeAtoms {β : Type} (f : String → Option β) : List String → Option (List β × List String)
+  | [] => none
+  | ")" :: rest => some ([], rest)
+  | t :: rest => match f t, takeAtoms f rest with
+    | some v, some (vs, rest') => some (v :: vs, rest')
+    | _, _ => none
+
+partial def parseTree : List String → Option (T Int × List String)
+  | "." :: rest => some (.nil, rest)
+  | "(" :: rest =>
+    match parseTree rest with
+    | some (l, k :: rest1) =>
+      match k.toInt?, parseTree rest1 with
+      | some k, some (r, ")" :: rest2) => some (.node l k r, rest2)
+      | _, _ => none
+    | _ => none
+  | _ => none
+
+mutual
+partial def parseExpr : List String → Option (Expr × List String)
+  | "(" :: "array" :: rest => (takeAtoms parseInt? rest).map fun (vs, r) => (.array vs, r)
+  | "(" :: "list" :: rest => (takeAtoms parseInt? rest).map fun (vs, r) => (.list vs, r)
+  | "(" :: "tuple" :: rest => (takeAtoms String.toNat? rest).map fun (vs, r) => (.tuple vs, r)
+  | "(" :: "table" :: rest =>
+    (takeAtoms (fun t => if t = "." then some none else (t.toInt?).map some) rest).map fun (vs, r) => (.table vs, r)
+  | "(" :: "rtree" :: rest => (takeAtoms parseInt? rest).map fun (vs, r) => (.rtree vs, r)
+  | "(" :: "range" :: rest => (takeAtoms parseArg? rest).map fun (vs, r) => (.range vs, r)
+  | "(" :: "tree" :: rest =>
+    match parseTree rest with
+    | some (t, ")" :: r) => some (.tree t, r)
+    | _ => none
+  | "(" :: "slice" :: rest =>
+    match parseExpr rest with
+    | some (e, r) => (takeAtoms parseArg? r).map fun (vs, r') => (.slice e vs, r')
+    | none => none
+  | "(" :: "reverse" :: rest =>
+    match parseExpr rest with
+    | some (e, ")" :: r) => some (.slice e [none, none, some (-1)], r)
+    | _ => none
+  | "(" :: "enum" :: rest =>
+    match parseExpr rest with
+    | some (e, ")" :: r) => some (.enum e, r)
+    | _ => none
+  | "(" :: "filter" :: rest =>
+    match parseExpr rest with
+    | some (e, m :: q :: ")" :: r) =>
+      match m.toInt?, q.toInt? with
+      | some m, some q => some (.filter e m q, r)
+      | _, _ => none
+    | _ => none
+  | "(" :: "map" :: rest =>
+    match parseExpr rest with
+    | some (e, a :: b :: ")" :: r) =>
+      match a.toInt?, b.toInt? with
+      | some a, some b => some (.map e a b, r)
+      | _, _ => none
+    | _ => none
+  | "(" :: "zip" :: rest => (parseExprs rest).map fun (es, r) => (.zip es, r)
+  | _ => none
+partial def parseExprs : List String → Option (List Expr × List String)
+  | ")" :: rest => some ([], rest)
+  | toks => match parseExpr toks with
+    | some (e, r) => (parseExprs r).map fun (es, r') => (e :: es, r')
+    | none => none
+end
+
+/-- a walk cut by the cap is printed by its first 16 items only (same rule in the harness) -/
+def showItems (l : List Val) (e : End := .term) : String :=
+  let l := if e = .fuel then l.take 16 else l
+  "[" ++ " ".intercalate (l.map Val.show) ++ "]"
+
+def excOf : String → String
+  | "no-len" => "ClassError"
+  | _ => "FormatError"
+
+def report (e : Expr) : String :=
+  match denote e with
+  | .error m => s!"O construct={excOf m}"
+  | .ok I =>
+    let (f, fe) := I.forward walkCap
+    let (b, be) := I.backward walkCap
+    let lenS := match I.len with | some n => toString n | none => "-"
+    let getS := match I.len, I.get with
+      | some n, some g => "[" ++ " ".intercalate ((List.range n).map fun (i : Nat) => match g (Int.ofNat i) with
+          | some v => v.show | none => "!") ++ "]"
+      | _, _ => "-"
+    s!"O f={showItems f fe} fe={fe.show} b={showItems b be} be={be.show} len={lenS} get={getS}"
+
+end IterDrv
+
+def main (args : List String) : IO Unit := do
+  let lines ← Driver.inputLines args
+  for l in lines do
+    if Driver.isSkippable l then continue
+    if l.startsWith "W " then
+      match IterDrv.parseExpr (IterDrv.tokenize (l.drop 2).toString) with
+      | some (e, []) => IO.println (IterDrv.report e)
+      | _ => IO.println "O bad-op"
+    else if l.startsWith "S " then
+      match (Driver.words (l.drop 2).toString) with
+      | n :: rest =>
+        match n.toNat?, rest.mapM IterDrv.parseArg? with
+        | some n, some as =>
+          match sliceStack n as with
+          | some (a, b, c) => IO.println s!"O range={a},{b},{c} len={rangeLen a b c}"
+          | none => IO.println "O construct=FormatError"
+        | _, _ => IO.println "O bad-op"
+      | _ => IO.println "O bad-op"
+    else IO.println "O bad-op"
